@@ -122,3 +122,20 @@ def near_pow2(lo=15, hi=130):
     vals = [v for v in (8, 9, 15, 16, 17, 18, 31, 32, 33, 34, 40, 50, 63, 64, 65, 66, 70, 96, 100, 127, 128, 129, 130, 200, 256, 257)
             if lo <= v <= hi]
     return st.sampled_from(vals)
+
+
+def with_done(strategy):
+    """adds the generator dimension 'the model is marked complete (Model.complete()) before operation number <done>': a completed
+    model no longer steps (and is falsy), but its environment, worlds, queries and class machinery stay in use while results are
+    collected. A quarter of the cases."""
+    from hypothesis import strategies as st
+    return st.tuples(strategy, st.sampled_from([None, None, None, None, None, None, 0, 0, 1, 3, 9])).map(
+        lambda t: t[0] if t[1] is None else dict(t[0], done=t[1]))
+
+
+def maybe_complete(case, k, model, labels):
+    """to be called at the head of operation k"""
+    d = case.get("done")
+    if d is not None and k == int(d) and model.is_running():
+        model.complete()
+        labels.add("model-completed-then-used")
